@@ -73,6 +73,16 @@ class HistoryEvolvent:
 
     def GetImage(self, x):
         self._churn(lambda: self.ev.GetImage(x))
+        if len(self.lo) >= 2:
+            # ... and by a round trip on the object itself: a point of the same cell that is not its centre is taken
+            # back to the curve, and the image is asked for at exactly the abscissa that came back (the left end of the
+            # subinterval of x, whose image is the same cell centre)
+            y0 = self.ev.GetImage(x)
+            m = int(self.ev.evolventDensity)
+            y = [float(c) + (0.21 if i % 2 else -0.17) * (b - a) / 2.0 ** m
+                 for i, (c, a, b) in enumerate(zip(y0, self.lo, self.hi))]
+            xi = self.ev.GetInverseImage(y)
+            return self.ev.GetImage(xi)
         return self.ev.GetImage(x)
 
     def GetInverseImage(self, y):
